@@ -173,7 +173,7 @@ struct BoxInfo {
 	bool exactCopies = true;   // number of element copies of a value operation is predicted exactly
 	unsigned clearKeepModes = 1;
 	bool hasCopyM = true;       // the type has a (const C&, MemManager) constructor
-	bool nullOpsBroken = false; // known finding F26: Swap / assignment with a moved-from operand is only probed in a child process
+	bool nullOpsBroken = false; // escape hatch: keep Swap / assignment with a moved-from or equal-manager operand out of the in-process histories (unused since F26 was repaired)
 };
 
 // N named objects of one container type
@@ -252,9 +252,10 @@ struct Scenario {
 
 	void begin() { led().beginOp(); ec().copies = 0; ec().moves = 0; }
 
+	bool xferOp = false;   // element-wise transfer: relocations inside nodes copy copy-only elements again
 	std::string events(bool exactFrees) {
 		std::string mv = (bi.exactMoves && bi.counted && bi.exactCopies) ? std::to_string(ec().moves) : std::string("*");
-		std::string cp = (bi.counted && bi.exactCopies) ? std::to_string(ec().copies) : std::string("*");
+		std::string cp = (bi.counted && bi.exactCopies && !(xferOp && !bi.movable)) ? std::to_string(ec().copies) : std::string("*");
 		return fmt("c=%s m=%s A=%s F=%s", cp.c_str(), mv.c_str(), showSet(led().opA).c_str(),
 			exactFrees ? showSet(led().opF).c_str() : "*");
 	}
@@ -417,7 +418,7 @@ struct Scenario {
 		ref[j] = *ref[i]; refMgr[j] = a; isNull[j] = false;
 		ref[i] = std::vector<uint32_t>();
 		if (steal) { if (bi.crew) refMgr[i] = -1; isNull[i] = true; } else isNull[i] = false;
-		emit(fmt("wmovea %d %d %d %s", j, i, a, xferHint(i, j).c_str()), "ok", true, false, i, j, rb);
+		xferOp = true; emit(fmt("wmovea %d %d %d %s", j, i, a, xferHint(i, j).c_str()), "ok", true, false, i, j, rb); xferOp = false;
 		c.stats.count(steal ? "op.move_ctor_alloc_equal" : "op.move_ctor_alloc_unequal_elementwise");
 	}
 	// known finding F15: operator= on a moved-from wrapper whose allocator does not propagate reads the stolen crew.
@@ -465,7 +466,7 @@ struct Scenario {
 			ref[j] = std::vector<uint32_t>();
 			if (steal) { if (bi.crew) refMgr[j] = -1; isNull[j] = true; } else isNull[j] = false;
 		}
-		emit(fmt("wmas %d %d %s", i, j, xferHint(j, i).c_str()), "ok", true, false, j, i, rb);
+		xferOp = true; emit(fmt("wmas %d %d %s", i, j, xferHint(j, i).c_str()), "ok", true, false, j, i, rb); xferOp = false;
 		c.stats.count(i == j ? "op.self_move_assign" : (steal ? "op.move_assign_steal" : "op.move_assign_unequal_elementwise"));
 		if (i != j && tgtNull) c.stats.count("null.move_assign_target");
 	}
@@ -503,11 +504,11 @@ struct Scenario {
 			else if (r < 16) { int j = pick(dead), i = pick(copyable); if (j >= 0 && i >= 0) { if (bi.hasCopyM) opCopyM(j, i); else opCopy(j, i); } }
 			else if (bi.wrapper && r < 22) { int j = pick(dead), i = pick(copyable); if (j >= 0 && i >= 0) opWMoveCtorA(j, i); }
 			else if (r < 28) { int j = pick(dead), i = pick(live); if (j >= 0 && i >= 0) opMove(j, i); }
-			// known finding F26 (second form): a stateful DataTable must not meet an equal manager in Swap
+			// (nullOpsBroken only) keep equal managers apart in Swap
 			else if (bi.wrapper && r < 40) {
 				// swap of wrappers is defined only when the allocators propagate on swap or are equal
 				int i = pick(live), j = pick(live);
-				if (i >= 0 && j >= 0 && (bi.pocs || bi.empty || (refMgr[i] == refMgr[j] && refMgr[i] >= 0))) opSwap(i, j);
+				if (i >= 0 && j >= 0 && (bi.pocs || (refMgr[i] >= 0 && refMgr[j] >= 0 && (bi.empty || refMgr[i] == refMgr[j])))) opSwap(i, j);
 				else if (i >= 0 && j >= 0 && bi.crew && (isNull[i] || isNull[j]) && (i == j || isNull[i] != isNull[j] || true) && !f15SwapProbed) {
 					// same root as known finding F15: swap() of a moved-from wrapper evaluates get_allocator() of the stolen crew inside its
 					// MOMO_ASSERT when the allocator does not propagate on swap (assert-enabled builds). Probed once per history, in a child.
